@@ -252,6 +252,7 @@ var c09Kinds = []c09Kind{
 type c09Session struct {
 	kind      c09Kind
 	a, b      c09Inst // a: the persistent receiver; b: scribble twin (mode 1)
+	other     c09Inst // an unrelated stream on another receiver of the same kind
 	callerMem []memRange
 	keepAlive [][]byte
 	history   []string
@@ -307,6 +308,22 @@ func (s *c09Session) feed(c *fw.Ctx, p []byte, r *fw.Rand) bool {
 	}
 	c.Evals(1)
 	c.Count("unmarshal_calls_judged", 1)
+	if len(outA) > 0 {
+		// an unrelated stream on another receiver of the same kind: what this receiver returned must not change
+		keep := append([]byte(nil), outA...)
+		if s.other == nil {
+			s.other = s.kind.mk()
+		}
+		oin := append([]byte(nil), p...)
+		for k := 1; k < len(oin); k++ {
+			oin[k] ^= 0x5A
+		}
+		fw.Guard(func() { s.other.Feed(oin) })
+		if !bytes.Equal(outA, keep) {
+			c.Fail("C09/"+name+"/result-changes-when-another-receiver-is-used", "the bytes returned by Unmarshal changed after an Unmarshal call on ANOTHER receiver of the same kind", wit())
+			return false
+		}
+	}
 	if canary() || !bytes.Equal(inA, p) {
 		c.Fail("C09/"+name+"/input-modified", "the depacketizer wrote into the caller's payload buffer (within len or into its spare capacity)", wit())
 		return false
